@@ -33,13 +33,20 @@ def slot_from_serial(serial):
         return -1
 
 
+def label_bytes(k, lab):
+    """the label symbol L2 stands for a label that fills all 32 bytes of CK_TOKEN_INFO.label (no blank padding)"""
+    s = "T%d-%s" % (k, lab)
+    return (s.ljust(31, ".") + "#").encode() if lab == "L2" else s.encode()
+
+
 def parse_label(lab):
-    """b'T3-L2   ...' -> (3, 'L2')"""
+    """b'T3-L1   ...' -> (3, 'L1'); a label that is not byte for byte the one label_bytes makes -> (3, '?')"""
     try:
         s = lab.rstrip(b" ").decode()
         if s.startswith("T") and "-" in s:
             a, b = s[1:].split("-", 1)
-            return int(a), b
+            sym = b.split(".", 1)[0]
+            return int(a), (sym if s.encode() == label_bytes(int(a), sym) else "?")
     except Exception:
         pass
     return -1, "?"
@@ -245,7 +252,7 @@ class TokDriver(Harness):
         return self.m2r.get(mh, 0x7fff0000 + mh)
 
     def labbytes(self, k, lab):
-        return ("T%d-%s" % (k, lab)).encode()
+        return label_bytes(k, lab)
 
     def live(self):
         p = self.p
